@@ -108,6 +108,17 @@ func run(c *mc.Ctx) {
 		f()
 		timing[name] = float64(time.Since(t).Milliseconds()) / 1000
 	}
+	// The call-history sub-space runs first, in a fresh process and on one goroutine, so its verdict is a
+	// function of the library alone.  If it finds that results depend on earlier calls (state kept between
+	// calls), the verdicts of the concurrent sub-spaces below would depend on goroutine scheduling (which call
+	// of which worker came last), i.e. they would not be reproducible: they are not run, the run is reported as
+	// capped, and the (replayable) history violations stand on their own.
+	timed("history", func() { runHistory(c) })
+	if c.Rep.NViolations > 0 && !c.Replaying() {
+		c.Cap("call-history violations found: the package keeps state between calls, the concurrent sub-spaces were not run (their verdicts would depend on scheduling)")
+		c.Rep.Extra["wall_s_by_group"] = timing
+		return
+	}
 	timed("xmd", func() { runXMD(c, dsts) })
 	timed("xof", func() { runXOF(c, dsts) })
 	timed("ell2", func() { runEll2(c) })
@@ -116,7 +127,6 @@ func run(c *mc.Ctx) {
 	timed("suite", func() { runSuites(c, byteStrings(c.Seed, "dst", []int{1, 16, 254, 255, 256, 257, 1000})) })
 	timed("sweep", func() { runSweeps(c) })
 	timed("memory", func() { runMemory(c) })
-	timed("history", func() { runHistory(c) })
 	c.Rep.Extra["wall_s_by_group"] = timing // informational only; no verdict depends on it
 
 	// Which exceptional inputs exist at all is a fact about the curve constants, established on the reference side:
